@@ -63,7 +63,7 @@ func emitEnumTable(name, leanType string, tbl map[int]string, ctors map[int]stri
 func genKeys(repo string) (string, []string, error) {
 	var notes []string
 	var b strings.Builder
-	b.WriteString("import DymVerif.Model.Keys2\nnamespace DymVerif.Gen.Keys\nopen DymVerif DymVerif.Keys\n\n")
+	b.WriteString("import DymVerif.Model.KeysX\nnamespace DymVerif.Gen.Keys\nopen DymVerif DymVerif.Keys\n\n")
 
 	// ---- x/common/types : rollapp packet keys ------------------------------------------
 	common, err := loadFiles(
